@@ -43,6 +43,7 @@ func evalBytePredAt(fn *ssa.Function, c int64) (bool, error) {
 		}
 		return nil, fmt.Errorf("value %s not available", v.Name())
 	}
+	addrVals := map[ssa.Value]ssa.Value{}
 	blk := fn.Blocks[0]
 	var prev *ssa.BasicBlock
 	for steps := 0; steps < 10000; steps++ {
@@ -99,10 +100,62 @@ func evalBytePredAt(fn *ssa.Function, c int64) (bool, error) {
 						}
 					}
 					vals[t] = r
+				case token.MUL, token.AND_NOT:
+					vals[t] = wrapUnsigned(constant.BinaryOp(x, t.Op, y), t.Type())
+				case token.QUO, token.REM:
+					if constant.Sign(y) == 0 {
+						return false, fmt.Errorf("division by zero in a byte predicate")
+					}
+					op := t.Op
+					if op == token.QUO {
+						op = token.QUO_ASSIGN // integer division
+					}
+					vals[t] = wrapUnsigned(constant.BinaryOp(constant.ToInt(x), op, constant.ToInt(y)), t.Type())
+				case token.SHL, token.SHR:
+					n, exact := constant.Uint64Val(constant.ToInt(y))
+					if !exact || n > 1024 {
+						return false, fmt.Errorf("shift count in a byte predicate is not a small non-negative number")
+					}
+					vals[t] = wrapUnsigned(constant.Shift(constant.ToInt(x), t.Op, uint(n)), t.Type())
 				default:
 					return false, fmt.Errorf("operator %s in a byte predicate is not modelled", t.Op)
 				}
+			case *ssa.IndexAddr:
+				// an element of an immutable package-level array of constants (a bitmap or class table)
+				g := tableGlobalOf(t.X)
+				if g == nil {
+					return false, fmt.Errorf("indexing something other than an immutable package-level array of constants")
+				}
+				i, err := get(t.Index)
+				if err != nil {
+					return false, err
+				}
+				iv, exact := constant.Int64Val(constant.ToInt(i))
+				elems := globalArrayInit(g)
+				if !exact || iv < 0 || int(iv) >= len(elems) {
+					return false, fmt.Errorf("index %s of %s is out of range for byte %d", i, g.Name(), c)
+				}
+				addrVals[t] = elems[iv]
 			case *ssa.UnOp:
+				if t.Op == token.MUL {
+					e, ok := addrVals[t.X]
+					if !ok {
+						return false, fmt.Errorf("load in a byte predicate from something other than a constant table")
+					}
+					if e == nil {
+						vals[t] = constant.MakeInt64(0)
+						if b, ok := t.Type().Underlying().(*types.Basic); ok && b.Info()&types.IsBoolean != 0 {
+							vals[t] = constant.MakeBool(false)
+						}
+						continue
+					}
+					k, ok := e.(*ssa.Const)
+					if !ok || k.Value == nil {
+						return false, fmt.Errorf("table element is not a constant")
+					}
+					vals[t] = k.Value
+					continue
+				}
 				x, err := get(t.X)
 				if err != nil {
 					return false, err
@@ -173,4 +226,23 @@ func byteClassPattern(cls [256]bool, rep string) (string, error) {
 	}
 	b.WriteString("]" + rep)
 	return b.String(), nil
+}
+
+// wrapUnsigned reduces an integer result to the width of its unsigned type.
+func wrapUnsigned(v constant.Value, t types.Type) constant.Value {
+	b, ok := t.Underlying().(*types.Basic)
+	if !ok || b.Info()&types.IsUnsigned == 0 || v.Kind() != constant.Int {
+		return v
+	}
+	bits := uint(64)
+	switch b.Kind() {
+	case types.Uint8:
+		bits = 8
+	case types.Uint16:
+		bits = 16
+	case types.Uint32:
+		bits = 32
+	}
+	mask := constant.BinaryOp(constant.Shift(constant.MakeInt64(1), token.SHL, bits), token.SUB, constant.MakeInt64(1))
+	return constant.BinaryOp(v, token.AND, mask)
 }
